@@ -240,7 +240,13 @@ theorem runAgInstrs_st (et : String) (s : State) (a : Agent) (is : List (Instr E
     (runAgInstrs et s a is).2.1.st = finalSt a.st is ∧ (runAgInstrs et s a is).2.1.ext = a.ext := by
   induction is generalizing s a with
   | nil => exact ⟨rfl, rfl⟩
-  | cons i is ih => cases i <;> simp only [runAgInstrs, finalSt] <;> first | exact ih _ _ | exact ⟨rfl, rfl⟩ | trivial
+  | cons i is ih =>
+    cases i <;> simp only [runAgInstrs, finalSt] <;> first
+      | exact ih _ _
+      | exact ⟨rfl, rfl⟩
+      | trivial
+      | (have h := ih (flowCall s ‹FlowCall›).1 (if (‹FlowCall› == FlowCall.initAgentReady && (flowCall s ‹FlowCall›).2) = true then { a with asked := true } else a)
+         refine ⟨h.1.trans ?_, h.2.trans ?_⟩ <;> (split <;> rfl))
 
 /-- table fact: except for the registration of an external extension in `Started`, a legal call other
     than `launchError` keeps the class of the agent and makes no registration arrival -/
